@@ -25,13 +25,8 @@ class FuncWrapper:
     def set_func(self, func):
         self.__call__ = func
 
-    def __eq__(self, other):
-        if isinstance(other, FuncWrapper):
-            return self._key == other._key
-        return NotImplemented
-
-    def __hash__(self):
-        return hash(self._key)
+    # Stubs are compared by identity. If stubs of one location were equal, a closure that another thread has put into
+    # the shared call cache (and that refers to that thread's still unset stub) would be returned for this thread's key.
 
 
 CallableT = TypeVar("CallableT", bound=Callable)
